@@ -589,6 +589,8 @@ func runC19(c *Check) {
 	c.MinInstances("C19-R3", 3)
 	ruleNoTypedNilSigner(c, p, "C19-R15")
 	rulePassphraseHandedOverAsGiven(c, p, "C19-R16")
+	rulePersistedFieldsSurvive(c, p, "C19-R17", rootPath+"/pkg/signer")
+	c.MinInstances("C19-R17", 1)
 	c.MinInstances("C19-R4", 2)
 }
 
